@@ -14,7 +14,7 @@ TIER = sys.argv[1] if len(sys.argv) > 1 else os.environ.get("VERIF_TIER", "quick
 SEED = int(os.environ.get("VERIF_SEED", "1"))
 T0 = time.time()
 WORK = os.path.join(MC, "target", "typex")
-REPO = "/repo"
+REPO = os.environ.get("MUT_REPO", "/repo")
 
 BORROW_CODES = {"E0597", "E0505", "E0515", "E0716", "E0521", "E0499", "E0502", "E0506", "E0373", "E0712", "E0713", "E0503", "E0700", "E0310", "E0311", "E0759", "E0495", "E0621", "E0726"}
 SEND_CODES = {"E0277"}
@@ -61,6 +61,31 @@ def tyname(t):
         return "array"
     return "?"
 
+def tyfull(t):
+    """type name including generic arguments, e.g. Option<Data>, Result<Bucket,Error>"""
+    if t is None:
+        return "()"
+    if "resolved_path" in t:
+        rp = t["resolved_path"]
+        name = (rp.get("path") or rp.get("name") or "?").split("::")[-1]
+        args = rp.get("args") or {}
+        inner = []
+        for a in (args.get("angle_bracketed") or {}).get("args", []):
+            if "type" in a:
+                inner.append(tyfull(a["type"]))
+        return name + ("<" + ",".join(inner) + ">" if inner else "")
+    if "borrowed_ref" in t:
+        return "&" + tyfull(t["borrowed_ref"]["type"])
+    if "tuple" in t:
+        return "(" + ",".join(tyfull(x) for x in t["tuple"]) + ")"
+    if "slice" in t:
+        return "[" + tyfull(t["slice"]) + "]"
+    if "qualified_path" in t:
+        return "qpath:" + t["qualified_path"].get("name", "?")
+    if "impl_trait" in t:
+        return "impl " + "+".join((b.get("trait_bound", {}).get("trait", {}).get("path", "?") + "<" + ",".join(tyfull(x["type"]) for x in ((b.get("trait_bound", {}).get("trait", {}).get("args") or {}).get("angle_bracketed") or {}).get("args", []) if "type" in x) + ">") for b in t["impl_trait"])
+    return tyname(t)
+
 def api_methods(doc):
     """(self type name, trait or None, method name, receiver, [(arg name, arg type, bounds)], output type)"""
     idx = doc["index"]
@@ -98,7 +123,7 @@ def api_methods(doc):
                 else:
                     tn = tyname(t)
                     args.append((n, tn, bounds.get(tn, [])))
-            out.append((forty, trait, f["name"], recv, args, tyname(fn["sig"]["output"])))
+            out.append((forty, trait, f["name"], recv, args, tyname(fn["sig"]["output"]), tyfull(fn["sig"]["output"])))
     return out
 
 # seeds: how to obtain a value of each type inside a transaction `tx` on bucket "b"
@@ -106,7 +131,7 @@ SEEDS = {
     "DB": ([], "db"),
     "Tx": ([], "tx"),
     "Bucket": (["let s0 = tx.get_bucket(\"b\").unwrap();"], "s0"),
-    "Cursor": (["let s0 = tx.get_bucket(\"b\").unwrap();", "let mut s1 = s0.cursor();"], "s1"),
+    "Cursor": (["let s0 = tx.get_bucket(\"b\").unwrap();", "let mut s1 = s0.cursor();", "let _ = s1.next();"], "s1"),
     "Data": (["let s0 = tx.get_bucket(\"b\").unwrap();", "let s1 = s0.get(\"k1\").unwrap();"], "s1"),
     "KVPair": (["let s0 = tx.get_bucket(\"b\").unwrap();", "let s1 = s0.get_kv(\"k1\").unwrap();"], "s1"),
     "BucketName": (["let s0 = tx.get_bucket(\"b\").unwrap();", "let s1 = s0.buckets().next().unwrap().0;"], "s1"),
@@ -135,7 +160,7 @@ def producers(methods):
     prods = []
     gaps = []
     seen = set()
-    for (forty, trait, name, recv, args, outty) in methods:
+    for (forty, trait, name, recv, args, outty, outfull) in methods:
         key = forty if forty in SEEDS and forty != "DB" else None
         if key is None:
             if forty not in ("OpenOptions", "Error", "array", "String", "Vec", "&str", "&[u8]", "&Bytes", "Bytes") or forty in ("Bytes", "&Bytes"):
@@ -165,15 +190,15 @@ def producers(methods):
         if ident in seen:
             continue
         seen.add(ident)
-        prods.append({"id": ident, "lets": lets, "expr": expr, "out": outty, "consumes_seed": recv == "Self"})
+        prods.append({"id": ident, "lets": lets, "expr": expr, "out": outty, "outfull": outfull, "consumes_seed": recv == "Self"})
     # the seeds themselves are producers too (a bucket, a cursor, a pair kept past the transaction)
     for k, (lets, sexpr) in SEEDS.items():
         if k in ("DB", "Tx") or k.startswith("&"):
             continue
         if lets:
-            last = lets[-1]
-            m = re.match(r"let (mut )?(s\d) = (.*);", last)
-            prods.append({"id": "seed:" + k, "lets": lets[:-1], "expr": m.group(3), "out": k, "consumes_seed": False})
+            idx = max(i for i, l in enumerate(lets) if re.match(r"let (mut )?(s\d) = (.*);", l))
+            m = re.match(r"let (mut )?(s\d) = (.*);", lets[idx])
+            prods.append({"id": "seed:" + k, "lets": lets[:idx], "expr": m.group(3), "out": k, "outfull": k, "consumes_seed": False})
     # unwrapped variants of Option / Result producers reach the inner borrowed value
     extra = []
     for p in prods:
@@ -439,6 +464,17 @@ def main():
                 gen_gaps.append("%s (%s): %s %s" % (n, owner.get(n, (0, {"id": n}))[1].get("id", n), codes, msgs[:1]))
         else:
             compiled.append(n)
+    # The library's handle and data types are !Send / !Sync by construction (Rc / RefCell inside):
+    # a thread-route program whose produced value is or contains one of them must be rejected.
+    # Plain std values (slices, integers, bools, errors) may cross threads if they run clean.
+    LIB_TYPES = ("Tx", "Bucket", "Cursor", "Data", "KVPair", "BucketName", "Range", "Buckets", "KVPairs", "Bytes")
+    for n in list(compiled):
+        if n[0] in "tuv" and n in owner:
+            i, p = owner[n]
+            full = p.get("outfull", "") + ("" if not p["id"].endswith(".next") else " item")
+            toks = set(re.findall(r"[A-Za-z_]+", full))
+            if toks & set(LIB_TYPES) or p["id"].startswith("seed:"):
+                violations.append(("send_sync_leak:" + p["id"], "producer `%s` (result type %s) %s: the program compiles, so a value of one of the library's transaction-bound types can cross a thread boundary" % (p["expr"], p.get("outfull", "?"), route_names[n[0]]), {"program": fns[n], "producer": p["id"], "route": n[0]}))
     # argument / database routes must be rejected
     for n, _ in ARG_ROUTES:
         st = res.get(n, ("type", [], []))
